@@ -447,6 +447,7 @@ func (svr *Server) handleConnection(c io.Closer) (svc *service, err error) {
 	if err != nil {
 		return nil, err
 	}
+	svc.setConnect(req)
 
 	resp.SetReturnCode(message.ConnectionAccepted)
 
